@@ -64,7 +64,7 @@ fn feed(s: &mut SummaryStream, chunk: &[u8]) -> bool {
     }
 }
 
-/// every single cut position (and every pair in the thorough tier)
+/// every single cut position (thorough: plus a second cut within the next four bytes)
 pub fn h_cuts() {
     let st = well_formed_stream();
     let whole = match one_shot(&st) {
@@ -75,7 +75,9 @@ pub fn h_cuts() {
         }
     };
     let c1 = sym::choose("cut1", st.len() + 1);
-    let c2 = if sym::bound(0, 1) == 1 { c1 + sym::choose("cut2", st.len() + 1 - c1) } else { st.len() };
+    // thorough: a second cut within the next four bytes (two cuts inside one character or one separator)
+    let rest = st.len() - c1;
+    let c2 = if sym::bound(0, 1) == 1 { c1 + sym::choose("cut2", if rest < 4 { rest + 1 } else { 5 }) } else { st.len() };
     let mut s = SummaryStream::new();
     let ok = feed(&mut s, &st[0..c1]) && feed(&mut s, &st[c1..c2]) && feed(&mut s, &st[c2..]);
     sym::observe_bool("all-writes-ok", ok);
@@ -131,7 +133,8 @@ pub fn h_malformed() {
                 }
             }
         } else {
-            st.extend_from_slice(&entry("x", b'a' + i as u8));
+            // a two-byte character in the good entries: the cut may fall inside it after a malformed entry
+            st.extend_from_slice(&entry("\u{e9}", b'a' + i as u8));
         }
         ends.push(st.len());
         i += 1;
